@@ -13,19 +13,28 @@
 (* A shape must be rejected when some field is "R", must be accepted when all fields   *)
 (* are "A"; otherwise it is gray (replayed for crashes only).  A loader that panics    *)
 (* violates the property whatever the class.                                           *)
+(* Lists: every list of a shape (host names of a tag, tags of a product, vips, advanced  *)
+(* and basic rules of a product, Hostname / Path of a basic rule, backends of a          *)
+(* sub-cluster) holds one *subject* element - the one that carries the element-level     *)
+(* states (e*, elem*, rCond, rAdvCluster, rBasic*, tAddr ...) - and well-formed          *)
+(* siblings.  The field sPos / tPos says where the subject sits: alone ("only"), before  *)
+(* ("first"), between ("middle") or after ("last") well-formed siblings.  The position   *)
+(* never changes the verdict (class "A"): a malformed element must be found wherever it  *)
+(* is, a documented file stays documented with more well-formed elements.                *)
 (* kinds: "sdc"  host_rule + vip_rule + route_rule + cluster_conf through              *)
 (*               LoadServerDataConf (h*, v*, r*, c* fields)                            *)
 (*        "gslb" gslb.data, "ctable" cluster_table.data, "file" whole-file damage      *)
 EXTENDS Integers, Sequences, FiniteSets, TLC
 
 Fields(k) == CASE k = "zz" -> <<>>
-  [] k = "sdc" -> <<"hVersion", "hDefault", "hHosts", "hHostTags", "vVersion", "vVips", "rVersion", "rProductRule", "rCond", "rAdvCluster", "rBasicRule", "rBasicHost", "rBasicPath", "rBasicCluster", "cVersion", "cConfig", "cProtocol", "cSchem", "cHashStrategy", "cBalanceMode", "cTimeout">>
+  [] k = "sdc" -> <<"hVersion", "hDefault", "hHosts", "hHostTags", "vVersion", "vVips", "rVersion", "rProductRule", "rCond", "rAdvCluster", "rBasicRule", "rBasicHost", "rBasicPath", "rBasicCluster", "cVersion", "cConfig", "cProtocol", "cSchem", "cHashStrategy", "cBalanceMode", "cTimeout", "sPos">>
   [] k = "gslb" -> <<"gClusters", "gHostname", "gTs">>
-  [] k = "ctable" -> <<"tVersion", "tConfig", "tAddr", "tName", "tPort", "tWeight">>
+  [] k = "ctable" -> <<"tVersion", "tConfig", "tAddr", "tName", "tPort", "tWeight", "tPos">>
   [] k = "file" -> <<"target", "whole">>
 
 \* state table: field -> set of <<state, class>>
-Tab(f) == CASE f = "target" -> {<<"host", "A">>, <<"vip", "A">>, <<"route", "A">>, <<"cluster", "A">>,
+Tab(f) == CASE f \in {"sPos", "tPos"} -> {<<"only", "A">>, <<"first", "A">>, <<"middle", "A">>, <<"last", "A">>}
+  [] f = "target" -> {<<"host", "A">>, <<"vip", "A">>, <<"route", "A">>, <<"cluster", "A">>,
                                 <<"gslb", "A">>, <<"ctable", "A">>}
   [] f = "hVersion" -> {<<"ok", "A">>, <<"absent", "G">>, <<"null", "G">>, <<"badtype", "R">>, <<"empty", "G">>}
   [] f = "hDefault" -> {<<"null", "A">>, <<"absent", "G">>, <<"ok", "A">>, <<"dangling", "R">>, <<"badtype", "R">>, <<"empty", "G">>}
@@ -59,7 +68,8 @@ Tab(f) == CASE f = "target" -> {<<"host", "A">>, <<"vip", "A">>, <<"route", "A">
   [] f = "tWeight" -> {<<"ok", "A">>, <<"absent", "G">>, <<"null", "G">>, <<"strnum", "G">>, <<"zero", "G">>, <<"badtype", "R">>}
   [] f = "whole" -> {<<"ok", "A">>, <<"missing", "R">>, <<"emptyfile", "R">>, <<"garbage", "R">>, <<"truncated", "R">>, <<"toparray", "R">>, <<"topstring", "R">>, <<"topnull", "G">>, <<"trailing", "G">>, <<"bom", "G">>}
 
-Baseline(f) == CASE f = "target" -> "host"
+Baseline(f) == CASE f \in {"sPos", "tPos"} -> "only"
+  [] f = "target" -> "host"
   [] f = "hVersion" -> "ok"
   [] f = "hDefault" -> "null"
   [] f = "hHosts" -> "ok"
